@@ -193,3 +193,49 @@ Theorem C14_source_parse_format_move :
   forall m, wf_move8 m ->
   exists s, PtnGen.format_move m = Ok s /\ parse_move s = Accept m.
 Proof. exact gen_parse_format_move. Qed.
+
+(* ---- the same about parse_move / PTN.parse REGENERATED FROM THE SOURCE (gen/PtnParseGen.v, harness/ptn2coq.py over the regex semantics of spec/RegexSpec.v; proofs/PtnParseGenEq.v) ---- *)
+From TV Require Import model.Tak model.PySem model.Ptn spec.PtnSpec spec.RegexSpec model.PtnSem.
+From TV Require Import proofs.PtnProofs proofs.TiePtnRegex proofs.PtnParseGenEq.
+From TV Require gen.PtnParseGen.
+(* every pattern literal of the source is the printed form of the term the translator parsed it into *)
+Theorem C14_source_regex_text :
+  show PtnParseGen.re_0 = PtnParseGen.re_0_src /\ show PtnParseGen.re_1 = PtnParseGen.re_1_src /\
+  show PtnParseGen.re_2 = PtnParseGen.re_2_src /\ show PtnParseGen.re_3 = PtnParseGen.re_3_src /\
+  show PtnParseGen.re_4 = PtnParseGen.re_4_src /\ show PtnParseGen.re_5 = PtnParseGen.re_5_src /\
+  show PtnParseGen.re_6 = PtnParseGen.re_6_src /\
+  forallb syntax_ok [PtnParseGen.re_0; PtnParseGen.re_1; PtnParseGen.re_2; PtnParseGen.re_3;
+                     PtnParseGen.re_4; PtnParseGen.re_5; PtnParseGen.re_6] = true.
+Proof. exact gen_regex_text. Qed.
+(* the translated parse_move IS what the model says the code does (before the lenient / Unspecified classification),
+   on every string *)
+Theorem C14_source_parse_move_eq :
+  forall s, PtnParseGen.parse_move s = embed (Ptn.parse_move_raw s).
+Proof. exact gen_parse_move_eq. Qed.
+(* no other error escapes parse_move: BadMove or a move, never KeyError / TypeError / ValueError / AttributeError *)
+Theorem C14_source_parse_move_no_crash :
+  forall s,
+  PtnParseGen.parse_move s = Illegal \/ exists m, PtnParseGen.parse_move s = Ok m.
+Proof. exact gen_parse_move_no_crash. Qed.
+(* the translated PTN.parse IS the model's parse_game on every text on which the model takes a position *)
+Theorem C14_source_parse_game_eq :
+  forall text,
+  game_modelled text -> PtnParseGen.parse text = embed_game (Ptn.parse_game text).
+Proof. exact gen_parse_game_eq. Qed.
+(* that domain holds every text the model parses to a game or refuses for the missing blank line *)
+Theorem C14_source_game_ok_modelled :
+  forall text,
+  (exists tags ms, parse_game text = GameOk tags ms) \/ parse_game text = GameNoSplit -> game_modelled text.
+Proof. exact game_ok_modelled. Qed.
+(* C14 transported to the translated parse_move *)
+Theorem C14_source_parse_move_of_format :
+  forall m, wf_move8 m -> PtnParseGen.parse_move (format_move m) = Ok m.
+Proof. exact gen_parse_format_move. Qed.
+Theorem C14_source_parse_move_denotes :
+  forall s m,
+  (ptn_denotes s m -> PtnParseGen.parse_move s = Ok m) /\
+  (PtnParseGen.parse_move s = Ok m -> ptn_denotes s m \/ ptn_lenient s).
+Proof. exact gen_parse_move_denotes. Qed.
+Theorem C14_source_parse_move_refuses :
+  forall s, PtnParseGen.parse_move s = Illegal <-> parse_move s = Reject.
+Proof. exact gen_parse_move_refuses. Qed.
